@@ -1236,7 +1236,8 @@ impl<'a> BenchContext<'a> {
                     sum = sum.saturating_add(sample_count);
                 }
 
-                (sum / median_samples.len() as u128) as MaxCountUInt
+                sum.checked_div(median_samples.len() as u128).unwrap_or_default()
+                    as MaxCountUInt
             };
 
             Some(StatsSet {
@@ -1280,7 +1281,10 @@ impl<'a> BenchContext<'a> {
             alloc_info.tallies.add_to_total(&mut alloc_total_tallies);
         }
 
-        let sample_size = f64::from(sample_size);
+        // Use 1 for empty denominators so that stats without any recorded
+        // samples are 0 instead of NaN (all numerators are 0 in that case).
+        let sample_size = f64::from(sample_size.max(1));
+        let total_count_f64 = total_count.max(1) as f64;
         Stats {
             sample_count: sample_count as u32,
             iter_count: total_count,
@@ -1353,8 +1357,8 @@ impl<'a> BenchContext<'a> {
                     }
                 },
                 mean: AllocTally {
-                    count: alloc_total_max_count as f64 / total_count as f64,
-                    size: alloc_total_max_size as f64 / total_count as f64,
+                    count: alloc_total_max_count as f64 / total_count_f64,
+                    size: alloc_total_max_size as f64 / total_count_f64,
                 },
             }
             .transpose(),
@@ -1411,8 +1415,8 @@ impl<'a> BenchContext<'a> {
                         mean: {
                             let tally = alloc_total_tallies.get(op);
                             AllocTally {
-                                count: tally.count as f64 / total_count as f64,
-                                size: tally.size as f64 / total_count as f64,
+                                count: tally.count as f64 / total_count_f64,
+                                size: tally.size as f64 / total_count_f64,
                             }
                         },
                     })
